@@ -101,6 +101,28 @@ func (u *Unit) atLoopHeader(st *State, fr *Frame, lp *loop, b, pred *ssa.BasicBl
 	if spec != nil && (spec.Mode == "unroll" || spec.Mode == "bounded") {
 		n, mode = spec.N, spec.Mode
 	}
+	if spec != nil && spec.Mode == "concrete" {
+		// unroll completely when the trip count is a constant on this path
+		// (e.g. ranging over a list built earlier on the path), else havoc
+		key2 := key + ":mode"
+		if pred == nil || !lp.blocks[pred] {
+			st.visits[key2] = 0
+			if ifi, ok := b.Instrs[len(b.Instrs)-1].(*ssa.If); ok {
+				if cmp, ok := ifi.Cond.(*ssa.BinOp); ok {
+					if yv, ok := fr.regs[cmp.Y]; ok {
+						if t, ok := yv.(*Term); ok && t.IsInt {
+							st.visits[key2] = 1
+						}
+					} else if c, ok := cmp.Y.(*ssa.Const); ok && c.Value != nil {
+						st.visits[key2] = 1
+					}
+				}
+			}
+		}
+		if st.visits[key2] == 1 {
+			n, mode = spec.N, "unroll"
+		}
+	}
 	if u.Cfg.ForceBounded > 0 {
 		mode, n = "bounded", u.Cfg.ForceBounded
 	}
@@ -232,6 +254,25 @@ func (u *Unit) havocLoop(st *State, fr *Frame, lp *loop, hdr, pred *ssa.BasicBlo
 				u.assume(Ge(t, init))
 			} else if okAll && step < 0 {
 				u.assume(Le(t, init))
+			}
+		}
+		// a byte slice that is only ever extended by append stays nil-or-fresh
+		if sv, ok := nv.(SliceV); ok && sv.List == nil && idx >= 0 {
+			if init, ok := u.get(st, fr, ph.Edges[idx]).(SliceV); ok {
+				initFresh := (init.Blk.IsInt && init.Blk.I.Sign() == 0) || u.provable(Or(Eq(init.Blk, IntLit(0)), Ge(init.Blk, u.alloc0)))
+				allAppend := initFresh
+				for j, e := range ph.Edges {
+					if j == idx || !allAppend {
+						continue
+					}
+					if !appendDerived(e, ph, 0) {
+						allAppend = false
+					}
+				}
+				if allAppend {
+					u.assume(Or(Eq(sv.Blk, IntLit(0)), Ge(sv.Blk, u.alloc0)))
+					u.blkInfo[sv.Blk.S] = blkMeta{base: u.alloc0, epoch: len(st.order)}
+				}
 			}
 		}
 		fr.regs[ph] = nv
@@ -507,4 +548,28 @@ func (u *Unit) reach(st *State, v Val, cells map[int]bool, regs map[string]bool,
 			}
 		}
 	}
+}
+
+// appendDerived: v is ph itself, append(x, ...) with x append-derived, or a phi
+// of append-derived values.
+func appendDerived(v ssa.Value, ph *ssa.Phi, depth int) bool {
+	if depth > 6 {
+		return false
+	}
+	if v == ssa.Value(ph) {
+		return true
+	}
+	switch x := v.(type) {
+	case *ssa.Call:
+		b, ok := x.Call.Value.(*ssa.Builtin)
+		return ok && b.Name() == "append" && appendDerived(x.Call.Args[0], ph, depth+1)
+	case *ssa.Phi:
+		for _, e := range x.Edges {
+			if !appendDerived(e, ph, depth+1) {
+				return false
+			}
+		}
+		return true
+	}
+	return false
 }
